@@ -103,6 +103,11 @@ def traces(tier="quick"):
     return T
 
 
+def jobs(tier="quick"):
+    from .taylor_cell import strapdown_job
+    return [strapdown_job("C08")]
+
+
 def canaries(tier="quick"):
     f = f_ins()
 
@@ -119,5 +124,5 @@ def canaries(tier="quick"):
 MIN_OBLIGATIONS = {"quick": 5, "thorough": 5}
 TRUSTED = ["A-GRAPH, A-REAL, own ring engine (see C01)", "CasADi symbolic differentiation (ca.jacobian w.r.t. dt)"]
 ASSUMPTIONS = ["lemma L-ODE (uniqueness of solutions of the IMU kinematics) turns flow + init into 'exact solution at time dt'",
-               "flow / comp are proved on the closed-form cell (|w| dt above the Taylor switch of every coefficient); exactly zero rate is proved separately; the small-angle cell in between is bounded in C06",
+               "flow / comp are proved on the closed-form cell (|w| dt above the Taylor switch of every coefficient); exactly zero rate is proved separately; on the small-angle cell the real-arithmetic deviation from the exact flow is bounded rigorously (taylor-cell obligation, <= 1e-11) for |w_i| <= 3.5 rad/s, dt <= 20 ms",
                "requires dt > 0 for flow (dt = 0 is init)"]
